@@ -16,8 +16,17 @@ invariant in EVERY reached state:
           (iv)  the returned grid equals the reference derivation (C03 semantics, re-checked)
           (v)   every operation leaves the object it is called on bit-identical (data, grids incl. flag, axes)
 receiver histories (sub-check 'receiver'): ONE live object through  op1 (twice, equal results) ->
-          grid_(g') in place (g' in {shifted, rotated anisotropic, other align_corners}) + in-place re-fill of the data with
-          the ramps of g' -> op2 (judged by (i)-(v) against the reference state of g', then repeated: equal result)
+          in-place change to g' (g' in {shifted, rotated anisotropic, other align_corners}; either grid_(g') or in-place
+          SETTERS on the object's own Grid objects: center_, origin_, spacing_+direction_+center_, align_corners_) +
+          in-place re-fill of the data with the ramps of g' -> op2 (judged by (i)-(v) against the reference state of g',
+          then repeated: equal result)
+same-target histories ('same-target'): obj.sample(T) -> in-place setter on the SAME target Grid object T (center_,
+          origin_, spacing_, direction_, align_corners_), or in-place change of the object's own grids, or nothing ->
+          obj.sample(T) again with the same objects (single grid and per-item list; judged against T's new geometry)
+copy histories ('copy'): c = obj.clone() | torch.clone(obj) | copy.deepcopy(obj) | copy.copy(obj); in-place edit (grid
+          setters / grid_ + data re-fill) of the original (resp. of the copy); the OTHER object must be bit-unchanged
+          and every operation on it in lock-step with its own grid (copy.copy: fully independent or fully shared,
+          anything else is not judged)
 """
 from __future__ import annotations
 
@@ -43,8 +52,12 @@ RULE = (
     "FlowFields/FlowField in world/grid/cube axes) on oriented anisotropic 2-D/3-D grids, executed on the real "
     "objects; distinct = exact bits of (data, grids, validity masks); non-trivial = the operation changed data or "
     "grid and at least 25% of the voxels of every item are still judged (valid); plus depth-3 histories on one live "
-    "object: op1, grid_(g') with in-place data re-fill, op2 (op1 one form per mechanism in quick / reduced alphabet in "
-    "thorough, 3 grids g', op2 reduced alphabet), each op also repeated on the same receiver"
+    "object: op1, in-place change to g' (grid_ or Grid setters center_/origin_/spacing_/direction_/align_corners_ on the "
+    "object's own grid objects; 7 forms) with in-place data re-fill, op2 (op1 one form per mechanism in quick / reduced "
+    "alphabet in thorough, op2 reduced alphabet), each op also repeated on the same receiver; sample(T) / setter on the same "
+    "target object T or on the object's grids / sample(T) again (3 targets x 13 changes x single grid or per-item list); "
+    "copies (clone(), torch.clone, deepcopy, copy) x edit of original or copy (4 edits) x every operation of the reduced "
+    "alphabet on the other object"
 )
 EXPLANATION = "bounded explicit-state exploration of Image/ImageBatch/FlowFields operation chains carrying world-coordinate ramps"
 ASSUMPTIONS = [
@@ -65,7 +78,7 @@ ASSUMPTIONS = [
 # measured: quick 53k chains / 37k outcomes / 21k non-trivial; thorough 464k chains / 328k outcomes / 150k non-trivial
 MIN_NONTRIVIAL = {"quick": 10000, "thorough": 70000}
 MIN_OUTCOMES = {"quick": 18000, "thorough": 160000}
-MIN_SUB_TRACES = {"chain": 25000, "receiver": 2000}
+MIN_SUB_TRACES = {"chain": 25000, "receiver": 9000, "same-target": 400, "copy": 3000}
 
 EPS32 = 2.0 ** -23
 CTOL = 64.0
@@ -176,11 +189,15 @@ def second_grid(r: RefGrid, seed: int) -> RefGrid:
 class St:
     """Reference state (+ the observed real data / grids needed to rebuild the real object)."""
 
-    __slots__ = ("cls", "N", "D", "axes", "coef", "grids", "masks", "data", "real_grids", "terminal")
+    __slots__ = ("cls", "N", "D", "axes", "coef", "grids", "masks", "data", "real_grids", "terminal", "live")
+
+    def __init__(self):
+        self.live = None  # (list of RefGrid, list of real Grid): live target grid objects of the object histories
 
     def copy_meta(self):
         s = St()
         s.cls, s.N, s.D, s.axes, s.coef, s.terminal = self.cls, self.N, self.D, self.axes, self.coef, False
+        s.live = self.live
         return s
 
 
@@ -469,6 +486,8 @@ def bounds(tier):
         "reduced_alphabet": len(reduced_alphabet(2, "ImageBatch", 2)),
         "chains": "quick: full x medium; thorough: full x medium for all 32 configurations, full x full for ImageBatch(N=2) on 8 grids, full x reduced x reduced for ImageBatch(N=2) on 4 grids",
         "depth_total": 2 if tier == "quick" else 3,
+        "object_histories": {"in_place_changes": len(MID_FORMS), "same_target_changes": len(LIVE_MIDS), "live_targets": len(LIVE_TARGETS),
+                             "copy_forms": len(COPY_FORMS), "copy_edits": len(COPY_EDITS)},
         "max_size_per_axis": MAXN,
     }
 
@@ -507,6 +526,8 @@ def target_ref(st: St, i: int, tname: str) -> RefGrid:
     out.z = r.n.copy()
     if tname in ("same", "own"):
         return out
+    if tname == "live":
+        return st.live[0][min(i, len(st.live[0]) - 1)].copy()
     if tname == "otherac":
         out.ac = not r.ac
         return out
@@ -645,6 +666,8 @@ def impl_call(obj, st: St, op, nan_fill: bool = False):
                 return st.real_grids[i]
             if a["target"] == "otherac":
                 return st.real_grids[i].align_corners(not st.real_grids[i].align_corners())
+            if a["target"] == "live":
+                return st.live[1][min(i, len(st.live[1]) - 1)]  # the SAME Grid object in every call of the history
             return real_grid_from_ref(target_ref(st, i, a["target"]))
 
         if a.get("per_item"):
@@ -1755,8 +1778,94 @@ def _same_result(a, b, st) -> bool:
     return receiver_fingerprint(a) == receiver_fingerprint(b)
 
 
-def receiver_history(cfg, op1, gname, op2):
-    """Returns (problems [(kind, detail)], undef reason or None, new state or None, number of real calls)."""
+# in-place changes of live Grid objects -------------------------------------------------------------------------
+# (grid name g', way): g' is reached either by replacing the grid(s) (grid_) or by in-place setters of the SAME Grid objects
+MID_FORMS = [
+    ("shift", "grid_"), ("aniso", "grid_"), ("otherac", "grid_"),
+    ("shift", "center_"), ("shift", "origin_"), ("aniso", "spacing_+direction_+center_"), ("otherac", "align_corners_"),
+]
+
+
+def edit_grid_inplace(g, new: RefGrid, via: str):
+    """Bring the live Grid object g to the geometry `new` with in-place setters only."""
+    if via == "center_":
+        g.center_(tuple(new.c.tolist()))
+    elif via == "origin_":
+        g.origin_(tuple(new.origin.tolist()))
+    elif via == "spacing_+direction_+center_":
+        g.spacing_(tuple(new.s.tolist()))
+        g.direction_(new.R.tolist())
+        g.center_(tuple(new.c.tolist()))
+    elif via == "align_corners_":
+        g.align_corners_(new.ac)
+    else:
+        raise KeyError(via)
+
+
+def own_grids(obj):
+    from deepali.data import ImageBatch
+
+    return list(obj.grids()) if isinstance(obj, ImageBatch) else [obj.grid()]
+
+
+def edited_state(st0: St, gname: str) -> St:
+    """Reference state after the object's grids were changed to g' and its data re-filled with the ramps of g'."""
+    st1 = st0.copy_meta()
+    st1.grids = [recv_grid(r, gname) for r in st0.grids]
+    st1.masks = [m.copy() for m in st0.masks]
+    shape = st0.data.shape[2:]
+    idx = ri.grid_indices(st1.grids[0].n)
+    st1.data = np.stack([expected_channels(st1, g, idx).reshape((-1,) + shape) for g in st1.grids]).astype(np.float32)
+    st1.real_grids = None
+    return st1
+
+
+def apply_mid(obj, st0: St, gname: str, via: str):
+    """Change the live object in place: grids -> g' (grid_ or setters on its own Grid objects), data re-filled in place.
+    Returns (problems, st1)."""
+    st1 = edited_state(st0, gname)
+    single = st0.cls in ("Image", "FlowField")
+    if via == "grid_":
+        st1.real_grids = [real_grid_from_ref(g) for g in st1.grids]
+        sg, rgd = guarded(lambda: obj.grid_(st1.real_grids[0] if single else list(st1.real_grids)))
+    else:
+        live = own_grids(obj)
+        st1.real_grids = live
+
+        def _edit():
+            for g, new in zip(live, st1.grids):
+                edit_grid_inplace(g, new, via)
+
+        sg, rgd = guarded(_edit)
+    if sg == "raises":
+        return [(f"{via}/" + raise_tag(rgd), exc_text(rgd))], None
+    with torch.no_grad():
+        obj.tensor().copy_(torch.from_numpy(st1.data[0] if single else st1.data))
+    _, d_obs, g_obs, _ = observe(obj, st1)
+    if d_obs is None or d_obs.tobytes() != st1.data.tobytes() or len(g_obs) != st1.N or any(a is not b for a, b in zip(g_obs, st1.real_grids)):
+        return [(f"{via}/not-applied", "after the in-place change the object does not report the new grid objects / data")], None
+    for i, (g, new) in enumerate(zip(g_obs, st1.grids)):
+        probs = grid_problems(RefGrid.from_real(g), new, 0)
+        if probs:
+            return [(f"{via}/{probs[0][0]}", f"item {i}: grid after the setter(s): {probs[0][1]}")], None
+    return [], st1
+
+
+def _repeat_ok(obj, st, op, new) -> bool:
+    s2, r2 = guarded(impl_call, obj, st, op)
+    if s2 == "raises":
+        return False
+    pick = r2[op[1]["level"]] if isinstance(r2, dict) and op[1].get("level") in r2 else r2
+    if isinstance(pick, dict):
+        return True  # level not returned: nothing to compare
+    _, d2, g2, _ = observe(pick, st)
+    return d2 is not None and d2.tobytes() == new.data.tobytes() and len(g2) == len(new.real_grids) and all(
+        receiver_fingerprint_grid(a) == receiver_fingerprint_grid(b) for a, b in zip(g2, new.real_grids))
+
+
+def receiver_history(cfg, op1, gname, op2, via: str = "grid_"):
+    """op1 (twice) -> in-place change to g' -> op2 (twice) on ONE live object.
+    Returns (problems [(kind, detail)], undef reason or None, new state or None, number of real calls)."""
     st0 = build(cfg)
     if ref_step(st0, op1) is None:
         return [], "receiver:first-op-not-enabled", None, 0
@@ -1770,39 +1879,14 @@ def receiver_history(cfg, op1, gname, op2):
     s1b, r1b = guarded(impl_call, obj, st0, op1)
     if s1b == "raises" or not _same_result(r1, r1b, st0):
         return [("first-op/repeat-call", f"{op_sig(op1)} called twice on the same object gives different results")], None, None, 2
-    # grid_(g') in place, data re-filled in place with the ramp of the new grids
-    st1 = st0.copy_meta()
-    st1.grids = [recv_grid(r, gname) for r in st0.grids]
-    st1.real_grids = [real_grid_from_ref(g) for g in st1.grids]
-    st1.masks = [m.copy() for m in st0.masks]
-    shape = st0.data.shape[2:]
-    idx = ri.grid_indices(st1.grids[0].n)
-    st1.data = np.stack([expected_channels(st1, g, idx).reshape((-1,) + shape) for g in st1.grids]).astype(np.float32)
-    single = st0.cls in ("Image", "FlowField")
-    sg, rgd = guarded(lambda: obj.grid_(st1.real_grids[0] if single else list(st1.real_grids)))
-    if sg == "raises":
-        return [("grid_/" + raise_tag(rgd), exc_text(rgd))], None, None, 3
-    with torch.no_grad():
-        obj.tensor().copy_(torch.from_numpy(st1.data[0] if single else st1.data))
-    # the receiver must now carry exactly the new grids and data
-    _, d_obs, g_obs, _ = observe(obj, st1)
-    if d_obs is None or d_obs.tobytes() != st1.data.tobytes() or len(g_obs) != st1.N or any(a is not b for a, b in zip(g_obs, st1.real_grids)):
-        return [("grid_/not-applied", "after grid_(g') the object does not report g' (or the data written in place)")], None, None, 3
+    probs, st1 = apply_mid(obj, st0, gname, via)
+    if probs:
+        return probs, None, None, 3
     r = step(st1, op2, 2, obj=obj)
     calls = 4
     if not r.problems and r.new is not None:
-        s2b, r2b = guarded(impl_call, obj, st1, op2)
         calls += 1
-        ok = s2b != "raises"
-        if ok:
-            pick = r2b[op2[1]["level"]] if isinstance(r2b, dict) and op2[1].get("level") in r2b else r2b
-            if isinstance(pick, dict):
-                ok = True  # level not returned: nothing to compare
-            else:
-                _, d2, g2, _ = observe(pick, st1)
-                ok = d2 is not None and d2.tobytes() == r.new.data.tobytes() and len(g2) == len(r.new.real_grids) and all(
-                    receiver_fingerprint_grid(a) == receiver_fingerprint_grid(b) for a, b in zip(g2, r.new.real_grids))
-        if not ok:
+        if not _repeat_ok(obj, st1, op2, r.new):
             r.problems.append(("repeat-call", f"{op_sig(op2)} called twice on the same object gives different results"))
     return r.problems, r.undef, r.new, calls
 
@@ -1811,37 +1895,215 @@ def receiver_fingerprint_grid(g) -> bytes:
     return g._size.numpy().tobytes() + g._center.numpy().tobytes() + g._spacing.numpy().tobytes() + g._direction.numpy().tobytes() + (b"T" if g._align_corners else b"F")
 
 
-def recv_sig(st_kind: str, op1, gname, op2, kind) -> str:
-    return f"C04/receiver/{op_sig(op1)}>grid_({gname})>{op_sig(op2)}/{st_kind}/{kind}"
+def recv_sig(st_kind: str, op1, gname, op2, kind, via: str = "grid_") -> str:
+    mid = f"grid_({gname})" if via == "grid_" else f"{via}({gname})"
+    return f"C04/receiver/{op_sig(op1)}>{mid}>{op_sig(op2)}/{st_kind}/{kind}"
 
 
-def run_receiver_shard(acc: Acc, cfg, tier, gname):
+def _record_history(acc: Acc, tag, case, sigf, probs, undef, new, calls, sample_desc):
+    acc.trans(calls)
+    if undef:
+        acc.undef(undef)
+    for kind, detail in probs:
+        acc.violation(sigf(kind), case, detail, size=3)
+    if probs:
+        acc.outcome(tag + "-problem", repr(sample_desc), probs[0][0])
+        return
+    if new is None:
+        return
+    acc.trace(tag, depth=3)
+    k2 = state_key(new)
+    acc.state(k2)
+    acc.outcome(tag, k2)
+    if valid_fraction(new) >= 0.25:
+        acc.nontriv(tag, repr(sample_desc), k2)
+    if len(acc.samples) < 1:
+        acc.sample({"initial": {"kind": case["cfg"]["kind"], "grid": case["cfg"]["grid"]}, "history_on_one_object": sample_desc,
+                    "result_grids": [g.describe() for g in new.grids]})
+
+
+def run_receiver_shard(acc: Acc, cfg, tier, mid):
+    gname, via = mid
     st0 = build(cfg)
     ks = kind_sig(st0)
     first, second = recv_ops(st0.D, st0.cls, st0.N, tier)
     for op1 in first:
         for op2 in second:
-            probs, undef, new, calls = receiver_history(cfg, op1, gname, op2)
-            acc.trans(calls)
-            if undef:
-                acc.undef(undef)
-            case = {"cfg": cfg, "recv": {"op1": op1, "grid": gname, "op2": op2}}
-            for kind, detail in probs:
-                acc.violation(recv_sig(ks, op1, gname, op2, kind), case, detail, size=3)
-            if probs:
-                acc.outcome("recv-problem", op_sig(op1), gname, op_sig(op2), probs[0][0])
-                continue
-            if new is None:
-                continue
-            acc.trace("receiver", depth=3)
-            k2 = state_key(new)
-            acc.state(k2)
-            acc.outcome("recv", k2)
-            if valid_fraction(new) >= 0.25:
-                acc.nontriv("recv", op_sig(op1), gname, k2)
-            if len(acc.samples) < 1:
-                acc.sample({"initial": {"kind": cfg["kind"], "grid": cfg["grid"]}, "history_on_one_object": [op1, ["grid_", gname], op2],
-                            "result_grids": [g.describe() for g in new.grids]})
+            probs, undef, new, calls = receiver_history(cfg, op1, gname, op2, via)
+            case = {"cfg": cfg, "recv": {"op1": op1, "grid": gname, "via": via, "op2": op2}}
+            _record_history(acc, "receiver", case, lambda kind: recv_sig(ks, op1, gname, op2, kind, via), probs, undef, new, calls,
+                            [op1, [via, gname], op2])
+
+
+# the SAME target Grid object sampled twice with an in-place change in between ---------------------------------------
+LIVE_TARGETS = ["shift", "rot", "size"]
+LIVE_MIDS = (
+    [("target", v) for v in ("center_", "origin_", "spacing_", "direction_", "align_corners_")]
+    + [("own", g, v) for g, v in MID_FORMS]
+    + [("none",)]
+)
+
+
+def edit_target(t: RefGrid, g, via: str) -> RefGrid:
+    """In-place setter on the live target grid object g (reference t); returns the new reference."""
+    D = t.D
+    new = t.copy()
+    if via == "center_":
+        new.c = t.c + t.R @ (t.s * np.array([0.8, -1.3, 0.6][:D]))
+        g.center_(tuple(new.c.tolist()))
+    elif via == "origin_":
+        new.c = t.c + t.R @ (t.s * np.array([-0.6, 0.9, 1.2][:D]))
+        g.origin_(tuple(new.origin.tolist()))
+    elif via == "spacing_":
+        new.s = t.s * np.array([0.8, 1.15, 0.9][:D])
+        g.spacing_(tuple(new.s.tolist()))
+    elif via == "direction_":
+        Q = rg.rot2(-17.0) if D == 2 else rg.rot3(-0.2, 0.15, 0.25)
+        new.R = Q @ t.R
+        g.direction_(new.R.tolist())
+    elif via == "align_corners_":
+        new.ac = not t.ac
+        g.align_corners_(new.ac)
+    else:
+        raise KeyError(via)
+    return new
+
+
+def live_history(cfg, tname, per_item: bool, mid, extra=None):
+    """sample(T) -> in-place change (of T, or of the object's own grids) -> sample(T) with the same objects."""
+    st0 = build(cfg)
+    n_t = st0.N if per_item else 1
+    refs = [target_ref(st0, i, tname) for i in range(n_t)]
+    if not all(_sizes_ok(t.n) for t in refs):
+        return [], "live:target-not-in-domain", None, 0
+    reals = [real_grid_from_ref(t) for t in refs]
+    st0.live = (refs, reals)
+    op = ("sample", dict({"target": "live"}, **({"per_item": True} if per_item else {}), **(extra or {})))
+    obj = make_real(st0)
+    r1 = step(st0, op, 0, obj=obj)
+    if r1.problems or r1.new is None:
+        return [("first-sample/" + k, d) for k, d in r1.problems], r1.undef, None, 1
+    if mid[0] == "target":
+        st1 = st0.copy_meta()
+        st1.grids, st1.masks, st1.data, st1.real_grids = st0.grids, st0.masks, st0.data, st0.real_grids
+        sg, val = guarded(lambda: [edit_target(t, g, mid[1]) for t, g in zip(refs, reals)])
+        if sg == "raises":
+            return [(f"target.{mid[1]}/" + raise_tag(val), exc_text(val))], None, None, 2
+        st1.live = (val, reals)
+    elif mid[0] == "own":
+        probs, st1 = apply_mid(obj, st0, mid[1], mid[2])
+        if probs:
+            return probs, None, None, 2
+        st1.live = (refs, reals)
+    else:
+        st1 = st0
+    r = step(st1, op, 2, obj=obj)
+    calls = 3
+    if not r.problems and r.new is not None and not r.new.terminal:
+        calls += 1
+        if not _repeat_ok(obj, st1, op, r.new):
+            r.problems.append(("repeat-call", "sample(T) called twice on the same objects gives different results"))
+    return r.problems, r.undef, r.new, calls
+
+
+def live_sig(ks, tname, per_item, mid, extra, kind) -> str:
+    m = {"target": lambda: f"T.{mid[1]}", "own": lambda: (f"grid_({mid[1]})" if mid[2] == "grid_" else f"own.{mid[2]}({mid[1]})"), "none": lambda: "nothing"}[mid[0]]()
+    o = op_sig(("sample", dict({"target": tname}, **({"per_item": True} if per_item else {}), **(extra or {}))))
+    return f"C04/same-target/{o}>{m}>again/{ks}/{kind}"
+
+
+def run_live_shard(acc: Acc, cfg, tier):
+    st0 = build(cfg)
+    ks = kind_sig(st0)
+    extras = [None, {"padding": "border"}, {"mode": "nearest"}] if tier != "quick" else [None, {"padding": "border"}]
+    for tname in LIVE_TARGETS:
+        for per_item in ([False, True] if st0.N == 2 else [False]):
+            for mid in LIVE_MIDS:
+                for extra in extras:
+                    probs, undef, new, calls = live_history(cfg, tname, per_item, mid, extra)
+                    case = {"cfg": cfg, "live": {"target": tname, "per_item": per_item, "mid": list(mid), "extra": extra}}
+                    _record_history(acc, "same-target", case, lambda kind: live_sig(ks, tname, per_item, mid, extra, kind), probs, undef, new,
+                                    calls, [["sample", tname], list(mid), ["sample", tname]])
+
+
+# copies: clone() / torch.clone / copy.copy / copy.deepcopy, then in-place edits of one object, evaluation of the other ----
+COPY_FORMS = ["clone()", "torch.clone", "copy.deepcopy", "copy.copy"]
+COPY_EDITS = [("shift", "origin_"), ("aniso", "spacing_+direction_+center_"), ("otherac", "align_corners_"), ("aniso", "grid_")]
+
+
+def make_copy(obj, form: str):
+    import copy as _copy
+
+    if form == "clone()":
+        return obj.clone()
+    if form == "torch.clone":
+        return torch.clone(obj)
+    if form == "copy.deepcopy":
+        return _copy.deepcopy(obj)
+    if form == "copy.copy":
+        return _copy.copy(obj)
+    raise KeyError(form)
+
+
+def copy_history(cfg, form, edited: str, edit, op2):
+    """c = copy(obj); in-place edit of obj (or of c); the OTHER object must be untouched and every operation on it in
+    lock-step with its own (old) grid. copy.copy (shallow): either fully independent or fully shared, else not judged."""
+    gname, via = edit
+    st0 = build(cfg)
+    if ref_step(st0, op2) is None:
+        return [], "copy:op-not-enabled", None, 0
+    obj = make_real(st0)
+    sc, cp = guarded(make_copy, obj, form)
+    if sc == "raises":
+        return [("copy/" + raise_tag(cp), exc_text(cp))], None, None, 1
+    cname, d_c, g_c, ax_c = observe(cp, st0)
+    if cname != st0.cls or (st0.axes is not None and ax_c != st0.axes):
+        return [], "copy:type-or-axes-not-preserved(not promised)", None, 1
+    if d_c is None or d_c.tobytes() != st0.data.tobytes() or len(g_c) != st0.N:
+        return [("copy/not-equal", "the copy does not carry the data / one grid per item of the original")], None, None, 1
+    for i, g in enumerate(g_c):
+        probs = grid_problems(RefGrid.from_real(g), st0.grids[i], 0)
+        if probs:
+            return [("copy/" + probs[0][0], f"item {i}: {probs[0][1]}")], None, None, 1
+    A, B = (obj, cp) if edited == "orig" else (cp, obj)
+    fpB = receiver_fingerprint(B)
+    probs, st1 = apply_mid(A, st0, gname, via)
+    if probs:
+        return [("edit/" + k, d) for k, d in probs], None, None, 2
+    unchanged = receiver_fingerprint(B) == fpB
+    stB = st0.copy_meta()
+    if unchanged:
+        stB.grids, stB.masks, stB.data = st0.grids, st0.masks, st0.data
+    elif form == "copy.copy":
+        _, dB, gB, _ = observe(B, st0)
+        shared = dB is not None and dB.tobytes() == st1.data.tobytes() and all(
+            not grid_problems(RefGrid.from_real(g), st1.grids[i], 0) for i, g in enumerate(gB))
+        if not shared:
+            return [], "copy.copy:partially-shared-after-edit(not promised)", None, 2
+        stB.grids, stB.masks, stB.data = st1.grids, st1.masks, st1.data
+    else:
+        what = "copy" if edited == "orig" else "original"
+        return [("follows-edit", f"in-place edit of the {'original' if edited == 'orig' else 'copy'} ({via}) changed the {what} (data bits / grids)")], None, None, 2
+    stB.real_grids = own_grids(B)
+    r = step(stB, op2, 2, obj=B)
+    return r.problems, r.undef, r.new, 3
+
+
+def copy_sig(ks, form, edited, edit, op2, kind) -> str:
+    return f"C04/copy/{form}>edit-{edited}:{edit[1]}({edit[0]})>{op_sig(op2)}/{ks}/{kind}"
+
+
+def run_copy_shard(acc: Acc, cfg, tier, form):
+    st0 = build(cfg)
+    ks = kind_sig(st0)
+    ops2 = alphabet(st0.D, st0.cls, st0.N, 0)
+    for edited in ("orig", "copy"):
+        for edit in COPY_EDITS:
+            for op2 in ops2:
+                probs, undef, new, calls = copy_history(cfg, form, edited, edit, op2)
+                case = {"cfg": cfg, "copy": {"form": form, "edited": edited, "edit": list(edit), "op2": op2}}
+                _record_history(acc, "copy", case, lambda kind: copy_sig(ks, form, edited, edit, op2, kind), probs, undef, new, calls,
+                                [[form], ["edit", edited, list(edit)], op2])
 
 
 def _groups(n, per):
@@ -1858,8 +2120,11 @@ def shards(tier: str, seed: int):
         for grp in _groups(nops, per):
             out.append({"tier": tier, "seed": seed, "cfg": i, "first": grp})
     for i, cfg in enumerate(cfgs):
-        for gname in RECV_GRIDS:
-            out.append({"tier": tier, "seed": seed, "cfg": i, "recv": gname})
+        for mid in MID_FORMS:
+            out.append({"tier": tier, "seed": seed, "cfg": i, "recv": list(mid)})
+        out.append({"tier": tier, "seed": seed, "cfg": i, "live": True})
+        for form in COPY_FORMS:
+            out.append({"tier": tier, "seed": seed, "cfg": i, "copy": form})
     return out
 
 
@@ -1868,7 +2133,13 @@ def run_shard(shard) -> Acc:
     tier = shard["tier"]
     cfg = configs(tier, shard["seed"])[shard["cfg"]]
     if "recv" in shard:
-        run_receiver_shard(acc, cfg, tier, shard["recv"])
+        run_receiver_shard(acc, cfg, tier, tuple(shard["recv"]))
+        return acc
+    if "live" in shard:
+        run_live_shard(acc, cfg, tier)
+        return acc
+    if "copy" in shard:
+        run_copy_shard(acc, cfg, tier, shard["copy"])
         return acc
     st0 = build(cfg)
     ex = Explorer(acc, cfg)
@@ -1896,9 +2167,23 @@ def replay(case):
     if "recv" in case:
         h = case["recv"]
         op1, op2 = (h["op1"][0], h["op1"][1]), (h["op2"][0], h["op2"][1])
-        probs, _, _, _ = receiver_history(cfg, op1, h["grid"], op2)
+        via = h.get("via", "grid_")
+        probs, _, _, _ = receiver_history(cfg, op1, h["grid"], op2, via)
         ks = kind_sig(build(cfg))
-        return [(recv_sig(ks, op1, h["grid"], op2, kind), detail) for kind, detail in probs]
+        return [(recv_sig(ks, op1, h["grid"], op2, kind, via), detail) for kind, detail in probs]
+    if "live" in case:
+        h = case["live"]
+        mid = tuple(h["mid"])
+        probs, _, _, _ = live_history(cfg, h["target"], h["per_item"], mid, h["extra"])
+        ks = kind_sig(build(cfg))
+        return [(live_sig(ks, h["target"], h["per_item"], mid, h["extra"], kind), detail) for kind, detail in probs]
+    if "copy" in case:
+        h = case["copy"]
+        op2 = (h["op2"][0], h["op2"][1])
+        edit = tuple(h["edit"])
+        probs, _, _, _ = copy_history(cfg, h["form"], h["edited"], edit, op2)
+        ks = kind_sig(build(cfg))
+        return [(copy_sig(ks, h["form"], h["edited"], edit, op2, kind), detail) for kind, detail in probs]
     ops = [(o[0], o[1]) for o in case["ops"]]
     st = build(cfg)
     out = []
